@@ -19,7 +19,8 @@ RULE = ("schemas built top-down to depth <= 4 with every combination of schema-l
         "random format, flat and nested) never override a variable but do set unbound fields, explicit assignment "
         "does; wrongly predicted names are detected because the predicted variable is the only one set; non-trivial = "
         ">= 1 bound field with a non-empty variable and >= 1 unbound or unset field; distinct = distinct case content")
-REQUIRED = ("constructed_ok", "bound_values_checked", "unbound_defaults_checked", "invalid_variable_rejected",
+REQUIRED = ("style:auto", "style:getitem", "style:dotted", "list_item_bound_checked", "list_item_document_names_bound_field",
+            "setting:ctype-True", "setting:ctype-named", "constructed_ok", "bound_values_checked", "unbound_defaults_checked", "invalid_variable_rejected",
             "loads_do_not_override_checked", "loads_set_unbound_checked", "assignment_overrides_checked",
             "setting:schema-auto", "setting:schema-named", "setting:schema-disabled", "setting:field-auto",
             "setting:field-named", "setting:field-disabled", "depth>=3")
@@ -39,7 +40,7 @@ def _field_setting(rng):
 
 def gen_node(rng, depth, counter, used):
     n = rng.randrange(1, 4)
-    keys = gen.pick_keys(rng, n + 2, avoid=used)
+    keys = gen.pick_keys(rng, n + 3, avoid=used)
     fields = []
     for key in keys[:n]:
         fam = rng.choice(FAMS)
@@ -66,7 +67,27 @@ def gen_node(rng, depth, counter, used):
                 s = rng.choice(["VFP%d", "vfp%d", "Vf_P%d", "VFP%d"]) % counter[0]
             if s is not None:
                 sub["env"] = s
+            else:
+                sub["style"] = rng.choice([None, None, "auto", "getitem", "dotted"])
             fields.append(sub)
+        # configuration types and lists of configurations: their schemas are roots of their own (own prefix setting)
+        r = rng.random()
+        if r < 0.35:
+            key = keys[n + 2]
+            sub = gen_node(rng, depth - 1 if rng.random() < 0.5 else 0, counter, used)
+            s = weighted(rng, [(2, None), (3, True), (3, "named"), (1, False)])
+            if s == "named":
+                counter[0] += 1
+                s = rng.choice(["VFT%d", "vft%d"]) % counter[0]
+            if s is not None:
+                sub["env"] = s
+            counter[0] += 1
+            if r < 0.15:
+                fields.append({"kind": "ctype", "key": key, "name": "E%d" % counter[0], "schema": sub})
+            else:
+                item = sub if rng.random() < 0.4 else {"kind": "ctype", "key": "", "name": "EI%d" % counter[0], "schema": sub}
+                # the list itself opts out of the environment (known finding K7 is about bound containers)
+                fields.append({"kind": "field", "key": key, "family": "list", "params": {"env": False}, "item": item})
     return {"kind": "schema", "key": "", "fields": fields}
 
 
@@ -85,6 +106,8 @@ def generate(rng, ctx):
             continue
         seen.add(name)
         mode = weighted(rng, [(2, "unset"), (1, "empty"), (5, "valid"), (1.2, "invalid")])
+        if mode == "invalid" and ("[]" in path or any(n2 == name and "[]" in p2 for p2, _x, n2 in names)):
+            mode = "valid"  # items are built by loads, not by the schema call
         if mode == "unset":
             continue
         if mode == "empty":
@@ -95,6 +118,13 @@ def generate(rng, ctx):
             if isinstance(v, str) and v and "\x00" not in v and model.accepts(node, v, gen.GEN_ENV)[0] is (mode == "valid"):
                 environ[name] = v
                 break
+    # one variable may name several fields: inside list items and configuration types it has to be valid for all of them
+    crossing = {}
+    naming(root, crossing)
+    for path, node, name in names:
+        if name and environ.get(name) and ("[]" in path or path in crossing):
+            if model.accepts(node, environ[name], gen.GEN_ENV)[0] is not True:
+                del environ[name]
     # decoys: plausible but wrong names for fields the model says are unbound - they must have no effect
     taken = {n for _p, _nd, n in names if n}
     for path, node, name in names:
@@ -126,9 +156,11 @@ def abbreviate(case):
 # naming model
 
 
-def naming(root):
-    """[(path, field node, variable name or None)] by the documented rules."""
+def naming(root, crossing=None):
+    """[(path, field node, variable name or None)] by the documented rules; `crossing` receives
+    {path: 'ctype'} for fields inside a configuration type ('[]' in the path marks list items)."""
     out = []
+    crossing = {} if crossing is None else crossing
 
     def prefix_of(setting, parent_prefix, key):
         if setting is True:
@@ -141,11 +173,26 @@ def naming(root):
             return None
         return (parent_prefix + "_" if parent_prefix else "") + key.upper()
 
+    def root_prefix_of(setting):
+        return "" if setting is True else (setting if isinstance(setting, str) else None)
+
     def walk(node, prefix, path):
         for ch in node["fields"]:
             p = (path + "." if path else "") + ch["key"]
             if ch["kind"] == "schema":
                 walk(ch, prefix_of(ch.get("env"), prefix, ch["key"]), p)
+                continue
+            if ch["kind"] == "ctype":
+                # the schema of a configuration type is a root of its own
+                n0 = len(out)
+                walk(ch["schema"], root_prefix_of(ch["schema"].get("env")), p)
+                for q, _nd, _nm in out[n0:]:
+                    crossing[q] = "ctype"
+                continue
+            if ch["family"] == "list":
+                item = ch["item"]
+                sch = item["schema"] if item["kind"] == "ctype" else item
+                walk(sch, root_prefix_of(sch.get("env")), p + "[]")
                 continue
             env = ch.get("params", {}).get("env")
             if env is False:
@@ -177,7 +224,17 @@ def _settings_seen(res, root):
                     res.count("setting:schema-disabled")
                 if depth + 1 >= 3:
                     res.count("depth>=3")
+                if ch.get("style") and e is None and ch["fields"]:
+                    res.count("style:" + ch["style"])
                 walk(ch, depth + 1)
+            elif ch["kind"] == "ctype":
+                res.count("setting:ctype-%s" % ("named" if isinstance(ch["schema"].get("env"), str) else ch["schema"].get("env")))
+                walk(ch["schema"], depth + 1)
+            elif ch["family"] == "list":
+                item = ch["item"]
+                sch = item["schema"] if item["kind"] == "ctype" else item
+                res.count("setting:item-%s" % ("named" if isinstance(sch.get("env"), str) else sch.get("env")))
+                walk(sch, depth + 1)
             else:
                 e = ch.get("params", {}).get("env")
                 if e is True:
@@ -227,12 +284,14 @@ def run(case, ctx, res):
     env = gen.GEN_ENV
     bound = {}  # path -> (node, name, normal form)
     invalid = []
+    crossing = {}
+    naming(root, crossing)
     for path, node, name in names:
         if name and environ.get(name):
             ok, norm = model.accepts(node, environ[name], env)
             if ok is True:
                 bound[path] = (node, name, norm)
-            elif ok is False:
+            elif ok is False and "[]" not in path and path not in crossing:
                 invalid.append((path, node, name))
             else:
                 return
@@ -282,8 +341,10 @@ def run(case, ctx, res):
             return
         if not _check_values(res, cfg, names, bound, loaded, how, case):
             return
+        if not _check_lists(res, cfg, root, tree, "", bound, env, how, case):
+            return
     # explicit assignment beats both
-    for path, (node, name, norm) in list(bound.items())[:3]:
+    for path, (node, name, norm) in [kv for kv in bound.items() if "[]" not in kv[0]][:3]:
         v = None
         for cand in gen.candidates(ctx.cache.setdefault("rng", __import__("random").Random(5)), node, 12, env):
             ok, n2 = model.accepts(node, cand, env)
@@ -317,16 +378,18 @@ def _eq(a, b):
 def _tree_norms(root, tree, env, prefix=""):
     """{path: normal form} of the leaves present in a (valid) tree."""
     out = {}
-    kids = {ch["key"]: ch for ch in root["fields"]}
+    kids = {ch["key"]: ch for ch in model.fields_of(root)["fields"]}
     for k, v in tree.items():
         ch = kids.get(k)
         p = (prefix + "." if prefix else "") + k
         if ch is None:
             continue
-        if ch["kind"] == "schema":
+        if ch["kind"] in ("schema", "ctype"):
             if isinstance(v, dict):
                 out[p] = "<sub>"
                 out.update(_tree_norms(ch, v, env, p))
+            continue
+        if ch["family"] == "list":
             continue
         ok, n = model.accepts_disk(ch, v, env)
         if ok is True:
@@ -334,8 +397,85 @@ def _tree_norms(root, tree, env, prefix=""):
     return out
 
 
+def _check_lists(res, cfgobj, schema_node, tdict, tpath, bound, env, stage, case):
+    """Lists of configurations loaded from a document: every item is built by the load, so each of its fields holds
+    its validated variable when one is set, else the document's value, else its default."""
+    for ch in model.fields_of(schema_node)["fields"]:
+        key = ch["key"]
+        p = (tpath + "." if tpath else "") + key
+        if ch["kind"] in ("schema", "ctype"):
+            sub = tdict.get(key) if isinstance(tdict, dict) else None
+            if not _check_lists(res, getattr(cfgobj, key), ch, sub if isinstance(sub, dict) else {}, p, bound, env, stage, case):
+                return False
+        elif ch["family"] == "list" and isinstance(tdict, dict) and isinstance(tdict.get(key), list):
+            items = getattr(cfgobj, key)
+            want = tdict[key]
+            if items is None or len(items) != len(want):
+                res.viol("M-env", "list-items", "%s: %s was loaded from %d item(s) but holds %r" % (stage, p, len(want), plain(items)))
+                return False
+            for i, (it, t) in enumerate(zip(items, want)):
+                if not _check_item(res, it, ch["item"], t if isinstance(t, dict) else {}, p + "[]", "%s[%d]" % (p, i), bound, env, stage, case):
+                    return False
+    return True
+
+
+def _check_item(res, cfgobj, schema_node, tdict, tpath, shown, bound, env, stage, case):
+    for ch in model.fields_of(schema_node)["fields"]:
+        key = ch["key"]
+        p = tpath + "." + key
+        where = shown + "." + key
+        if ch["kind"] in ("schema", "ctype"):
+            sub = tdict.get(key)
+            if not _check_item(res, getattr(cfgobj, key), ch, sub if isinstance(sub, dict) else {}, p, where, bound, env, stage, case):
+                return False
+            continue
+        if ch["family"] == "list":
+            items = getattr(cfgobj, key)
+            want = tdict.get(key)
+            if isinstance(want, list):
+                if items is None or len(items) != len(want):
+                    res.viol("M-env", "list-items", "%s: %s was loaded from %d item(s) but holds %r" % (stage, where, len(want), plain(items)))
+                    return False
+                for i, (it, t) in enumerate(zip(items, want)):
+                    if not _check_item(res, it, ch["item"], t if isinstance(t, dict) else {}, p + "[]", "%s[%d]" % (where, i), bound,
+                                       env, stage, case):
+                        return False
+            continue
+        got = plain(getattr(cfgobj, key))
+        if p in bound:
+            _nd, nm, norm = bound[p]
+            res.count("list_item_bound_checked")
+            if key in tdict:
+                res.count("list_item_document_names_bound_field")
+            d = model.match(norm, got)
+            if d:
+                res.viol("M-env", "item-overridden-by-load" if key in tdict else "item-name", "%s: %s should hold the validated variable "
+                         "%s=%r (%r) but reads %r (the document %s)" % (stage, where, nm, case["environ"][nm], norm, got,
+                                                                        "gives %r" % (tdict[key],) if key in tdict else "does not name it"))
+                return False
+        elif key in tdict:
+            ok, n = model.accepts_disk(ch, tdict[key], env)
+            if ok is True:
+                res.count("list_item_loaded_checked")
+                if model.match(n, got):
+                    res.viol("M-env", "item-load-dropped", "%s: %s is not bound to a set variable, the document gives %r, but it reads %r" % (
+                        stage, where, tdict[key], got))
+                    return False
+        else:
+            known, dflt = model.default_of(ch, env)
+            if known:
+                res.count("list_item_default_checked")
+                if model.match(dflt, got):
+                    res.viol("M-env", "item-default", "%s: %s should hold its default %r but reads %r; environment %r" % (
+                        stage, where, dflt, got, case["environ"]))
+                    return False
+    return True
+
+
 def _check_values(res, cfg, names, bound, loaded, stage, case):
     for path, node, name in names:
+        if "[]" in path:
+            continue
         try:
             got = plain(cfg[path])
         except Exception as exc:
